@@ -169,6 +169,13 @@ def candidate_arrays(cex, p, rnd):
 
 
 def replay(cex):
+    if cex.get("kind") == "w":
+        from engine import wrun
+        return wrun.replay_generic(cex)
+    return replay_arrays(cex)
+
+
+def replay_arrays(cex):
     """assign register arrays through the public attribute on ONE reused sketch per precision and compare query() with
     an independent numpy rendering of the documented estimator (relative tolerance 1e-9)"""
     import numpy as np
@@ -242,6 +249,9 @@ def main():
         obs.append(common.Ob(f"_query == documented decision tree for all register arrays, m={m}", ob_structure, (m, tmo), hard_s=tmo / 1000 * 2 + 240, bounds={"m": m, "registers": "all values 0..64 per cell (symbolic)", "threshold, alpha": "symbolic"}))
         obs.append(common.Ob(f"empty sketch => exactly 0.0, m={m}", ob_empty, (m, tmo), hard_s=tmo / 1000 + 240, bounds={"m": m}))
     obs.append(common.Ob("witness: every leaf of the decision tree reachable", ob_witness, (16,), kind="witness", hard_s=600))
+    from engine import wrun
+    wobs, wmeta = wrun.obligations("c17", tier)
+    obs += wobs
     results = common.run_obligations(obs, progress=os.environ.get("VERIF_VERBOSE") == "1")
     funcs = set()
     for r in results:
@@ -256,7 +266,7 @@ def main():
         PID, tier, "model_checking", obs, results, t0=t0, funcs=funcs,
         bounds={"register_arrays": f"m in {ms} cells (the kernel takes m as a parameter; the class only uses m >= 128), every cell symbolic in 0..64", "threshold": "0..2^62", "alpha": "any positive real"},
         stubs=["np.log, float64 ** and np.interp -> uninterpreted functions over the reals (floats idealised as reals: the sum's association order is immaterial); 2**x > 0; log(1) = 0 for the empty-sketch obligation"],
-        assumptions=["Numba lowering preserves typed-IR semantics", "HyperLogLog.__init__ passes row p-7 of the shipped tables and alpha = 0.7213/(1+1.079/m) (engine W obligation of this check's W part / C10)",
+        assumptions=["Numba lowering preserves typed-IR semantics", "HyperLogLog.__init__ passes row p-7 of the shipped tables and alpha = 0.7213/(1+1.079/m), and query() evaluates the current registers at every call: CrossHair conditions of checks/w_c17.py",
                      "a structural counterexample is reported only after a register array reproducing a numeric disagreement with the independent reference is found on the real sketch"],
         outside=["accuracy of np.log / np.interp / 2.0**x", "register files larger than the listed m (the loops are uniform)", "float rounding (real-idealised); the replay compares numerically with tolerance 1e-9"],
         explanation="the estimator's branch structure and formulas decided for all register arrays against a reference tree under shared uninterpreted numerics",
